@@ -20,8 +20,10 @@ import (
 	"fmt"
 	"hash/fnv"
 	"os"
+	"os/signal"
 	"path/filepath"
 	"strings"
+	"syscall"
 	"time"
 
 	"nriverif/internal/earlyfd"
@@ -144,6 +146,10 @@ func main() {
 	case strings.Contains(base, "noreg"):
 		time.Sleep(60 * time.Second)
 		os.Exit(8)
+	}
+	if staysAround() {
+		// nothing short of a kill removes this one
+		signal.Ignore(syscall.SIGTERM, syscall.SIGINT, syscall.SIGHUP)
 	}
 	st, err := stub.New(plugin{}, stub.WithOnClose(func() {
 		if staysAround() {
